@@ -147,7 +147,8 @@ theorem checkEof_spec (inp : List Nat) (hinp : WF inp) (w : BitWindow) (hbit : w
 def Rel (inp : List Nat) (res : BitWindow × Step) : WalkRes → Prop
   | .sym s rest => res.2 = .sym s ∧ res.1.endPos + rest.length = 8 * inp.length
   | .short q => (eofOK q = true → res.2 = .done) ∧
-      (eofOK q = false → ∃ w, res.2 = .err (.missingBits w))
+      (eofOK q = false → ∃ w, res.2 = .err (.missingBits w)) ∧
+      8 * res.1.byte + res.1.bit + q.length = 8 * inp.length
   | .unhandled => ∃ w v, res.2 = .err (.unhandled w v)
 
 theorem forwards_start (w : BitWindow) (k : Nat) :
@@ -172,9 +173,12 @@ theorem bridgeL (inp : List Nat) (hinp : WF inp) : ∀ (l : Level) (w : BitWindo
       have hce := checkEof_spec inp hinp (w.forwards k) hb (by omega)
       rw [hs] at hce
       simp only [Rel]
-      constructor
+      refine ⟨?_, ?_, ?_⟩
       · intro h; rw [hce.1 h]
       · intro h; obtain ⟨w', hw'⟩ := hce.2 h; rw [hw']; exact ⟨w', rfl⟩
+      · cases hck : checkEof (w.forwards k) inp with
+        | ok u => cases u; simp only; omega
+        | error e => simp only; omega
     · rw [if_neg hcond]
       have hrd : readBits inp (w.forwards k).byte (w.forwards k).bit (w.forwards k).count =
           some (val (((bitsOf inp).drop w.endPos).take k)) := by
